@@ -121,4 +121,144 @@ def specHist (S : Nat → V) : List (Tx V) → (Nat → V) × List (List V)
     let rest := specHist r.1 txs
     (rest.1, r.2 :: rest.2)
 
+/-! ### `RevertibleVirtualInventory` / `RevertiblePoolBuffer`: the same cache on ONE cell
+
+`VirtualInventory { pool : PoolStorage, buffer : RevertiblePoolBuffer { rev, pool : PoolStorage } }`.
+`RevertibleVirtualInventory::new` = `start_revertible_operation`, `pool()` = `cache_get_with`,
+`pool_mut()` = `cache_get_mut_with`, `commit` = `if dirty { *storage = *buffered }`. (A fresh account
+starts with `rev = 0` and both cells at revision 0; the first `new` makes `rev = 1`.) -/
+
+structure VI (V : Type) where
+  rev : Nat
+  cell : Cell V
+  store : Cell V
+
+def viBegin (W : Nat) (v : VI V) : Option (VI V) :=
+  if v.rev + 1 < 2 ^ W then some { v with rev := v.rev + 1 } else none
+
+def viDirty (v : VI V) : Bool := v.cell.rev == v.rev
+
+def viRead (v : VI V) : V := if viDirty v then v.cell.val else v.store.val
+
+def viWrite (v : VI V) (f : V → V) : VI V :=
+  if viDirty v then { v with cell := ⟨v.cell.rev, f v.cell.val⟩ }
+  else { v with cell := ⟨v.rev, f v.store.val⟩ }
+
+def viCommit (v : VI V) : VI V := if viDirty v then { v with store := v.cell } else v
+
+inductive VAct (V : Type) where
+  | read
+  | write (f : V → V)
+
+/-- the same action on kind 0 of the multi-cell buffer -/
+def VAct.lift : VAct V → Act V
+  | .read => .read 0
+  | .write f => .write 0 f
+
+def viRunActs (v : VI V) : List (VAct V) → VI V × List V
+  | [] => (v, [])
+  | .read :: as => let r := viRunActs v as; (r.1, viRead v :: r.2)
+  | .write f :: as => viRunActs (viWrite v f) as
+
+def viFinish (v : VI V) : End → VI V
+  | .commit => viCommit v
+  | .abandon => v
+
+def viRunTx (W : Nat) (v : VI V) (acts : List (VAct V)) (fin : End) : Option (VI V × List V) :=
+  match viBegin W v with
+  | none => none
+  | some v1 => let r := viRunActs v1 acts; some (viFinish r.1 fin, r.2)
+
+def viRunHist (W : Nat) (v : VI V) : List (List (VAct V) × End) → Option (VI V × List (List V))
+  | [] => some (v, [])
+  | (acts, fin) :: txs =>
+    match viRunTx W v acts fin with
+    | none => none
+    | some (v', rs) =>
+      match viRunHist W v' txs with
+      | none => none
+      | some (v'', rss) => some (v'', rs :: rss)
+
+/-- the projection of the multi-cell buffer onto its cell 0 -/
+def proj0 (m : M V) : VI V := ⟨m.rev, m.cells 0, m.store 0⟩
+
+/-- a multi-cell buffer whose cell 0 is the given single-cell buffer (other cells mirror it) -/
+def embed0 (v : VI V) : M V := ⟨v.rev, fun _ => v.cell, fun _ => v.store⟩
+
+/-! ### `RevertiblePosition`: private copy, written back on commit
+
+`RevertiblePosition::new` copies `storage.state` into `self.state`; every read/write goes to the
+copy; `commit` first commits the market, then `storage.state = self.state`; dropping does nothing. -/
+
+structure PB (P : Type) where
+  stored : P
+  loc : P
+
+def pbBegin {P : Type} (b : PB P) : PB P := { b with loc := b.stored }
+def pbRead {P : Type} (b : PB P) : P := b.loc
+def pbWrite {P : Type} (b : PB P) (f : P → P) : PB P := { b with loc := f b.loc }
+def pbCommit {P : Type} (b : PB P) : PB P := { b with stored := b.loc }
+
+/-- position + market of one `RevertiblePosition`: commit commits both, drop neither -/
+def posCommit {P : Type} (s : M V × PB P) : M V × PB P := (commit s.1, pbCommit s.2)
+
+/-! ### `RevertibleLiquidityMarket`: mint and burn are deferred to commit
+
+`to_mint`/`to_burn : u64` accumulate; `mint` checks `amount`, `to_mint + amount` and
+`supply + to_mint'` against `u64`; `burn` checks `amount`, `to_burn + amount` and `supply ≥ to_burn'`.
+`total_supply = (supply + to_mint) ⊖ to_burn` (saturating). `commit` issues the token-program
+`MintTo(to_mint)` if non-zero, then `Burn(to_burn)` if non-zero, then commits the market. -/
+
+structure LM where
+  supply : Nat
+  toMint : Nat
+  toBurn : Nat
+  deriving Repr, DecidableEq
+
+inductive Cpi where
+  | mintTo (amount : Nat)
+  | burn (amount : Nat)
+  deriving Repr, DecidableEq
+
+def U64 : Nat := 2 ^ 64
+
+def lmBegin (supply : Nat) : LM := ⟨supply, 0, 0⟩
+
+def lmMint (l : LM) (a : Nat) : Option LM :=
+  if a ≥ U64 then none else
+  if l.toMint + a ≥ U64 then none else
+  if l.supply + (l.toMint + a) ≥ U64 then none else
+  some { l with toMint := l.toMint + a }
+
+def lmBurn (l : LM) (a : Nat) : Option LM :=
+  if a ≥ U64 then none else
+  if l.toBurn + a ≥ U64 then none else
+  if l.supply < l.toBurn + a then none else
+  some { l with toBurn := l.toBurn + a }
+
+def lmTotalSupply (l : LM) : Nat := l.supply + l.toMint - l.toBurn
+
+/-- the CPIs issued by `commit`, in order -/
+def lmCommitCpis (l : LM) : List Cpi :=
+  (if l.toMint ≠ 0 then [Cpi.mintTo l.toMint] else []) ++ (if l.toBurn ≠ 0 then [Cpi.burn l.toBurn] else [])
+
+/-- the token program's effect on the mint's supply -/
+def applyCpi (supply : Nat) : Cpi → Nat
+  | .mintTo a => supply + a
+  | .burn a => supply - a
+
+def lmCommitSupply (l : LM) : Nat := (lmCommitCpis l).foldl applyCpi l.supply
+
+/-- successful mint/burn requests of one operation -/
+inductive LAct where
+  | mint (a : Nat)
+  | burn (a : Nat)
+  deriving Repr, DecidableEq
+
+/-- apply requests; a rejected request leaves the counters unchanged -/
+def lmRun (l : LM) : List LAct → LM
+  | [] => l
+  | .mint a :: as => lmRun ((lmMint l a).getD l) as
+  | .burn a :: as => lmRun ((lmBurn l a).getD l) as
+
 end Gmx.Rev
